@@ -354,6 +354,18 @@ fn real_states(tier: Tier) -> Vec<(String, ObservableInstanceState, Vec<String>)
             let bad = getters_vs_debug(node, &o);
             (o, bad)
         });
+        let mut r = r;
+        // the one state whose link delay is known from its script: t1 = 1000 ns, one-step response
+        // with zero correction received at 3469.5 ns, so (3469.5 - 1000) / 2 = 1234.75 ns - on a
+        // port that is not slave
+        if name == "p2p-with-link-delay" {
+            if let statime::observability::port::DelayMechanism::P2P { mean_link_delay, .. } = r.0.port_ds[0].delay_mechanism {
+                let want = (1234i64 << 16) + (3 << 14);
+                if mean_link_delay.0.to_bits() != want {
+                    r.1.push(format!("port0.mean_link_delay: exposed {} x 2^-16 ns, the completed exchange measured {} x 2^-16 ns", mean_link_delay.0.to_bits(), want));
+                }
+            }
+        }
         out.push((name.to_string(), r.0, r.1));
     };
     let two = |p2p: bool| {
